@@ -238,6 +238,7 @@ let parse_op (toks : Stdlib.String.t list) : op =
   | ["dmg"; "deldir"; n] -> ODamage (DDelArtDir (num_tok n))
   | ["dmg"; "setart"; n; b] -> ODamage (DSetArt (num_tok n, bytes_of_ostring (blob_tok b)))
   | ["dmg"; "junk"] -> ODamage DJunk
+  | ["dmg"; "junkh"] -> ODamage DJunk      (* the same stray entry under a hidden name, not empty *)
   | ["dmg"; "rawpj"; b] ->
       (* arbitrary bytes written to patches_state.json: the model reads them itself (JsonState.pj_of_file) *)
       ODamage (DSetPj (pj_of_file (bytes_of_ostring (blob_tok b))))
